@@ -16,6 +16,9 @@ import (
 type ghostStream struct {
 	pos int
 	out [1 << 30]byte
+	// bufio.Writer only: bytes currently buffered and the buffer size
+	buffered int
+	size     int
 }
 
 //gvc:ghost
